@@ -28,7 +28,7 @@ SHRINK_WALL_S = 90
 
 TIERS = {
     "quick": {"L1": 8000, "L2": 5000, "L3": 2000},
-    "thorough": {"L1": 120000, "L2": 80000, "L3": 12000},
+    "thorough": {"L1": 700000, "L2": 400000, "L3": 120000},
 }
 SINK_KINDS = ("bytesio", "simsink-int", "simsink-none", "bufferedwriter", "streamwriter")
 SOURCE_KINDS = ("bytesio", "simsource", "bufferedreader")
